@@ -44,6 +44,7 @@ Definition continues (site : Z) (nxt : option Z) : bool :=
   else if site =? s_pop_seq_load then is_some_of nxt [s_pop_head_cas]
   else if site =? s_pop_head_cas then is_some_of nxt [s_pop_data_read]
   else if site =? s_pop_data_read then true
+  else if site =? s_pop_data_destroy then true
   else if site =? s_pushb_tail_load then true
   else if site =? s_pushb_seq_load then is_some_of nxt [s_pushb_seq_load; s_pushb_tail_cas]
   else if site =? s_pushb_tail_cas then is_some_of nxt [s_pushb_data_write]
